@@ -177,7 +177,51 @@ class UpdateInputs(Unit):
             ctx.ensure(f"input {inn}: the previous delay distribution is kept", z3.BoolVal(i.f["delay_dist"] is prev[inn].f["delay_dist"]), props=("C10", "C01"))
 
 
-UNITS = [RingPush("InputState"), RingPush("Window"), UpdateOutput(), RingBufferLemma(), UpdateInputs()]
+class UpdateInputsDelay(Unit):
+    """the delay of a (trainable) connection is applied with the PRODUCER's rate (the rate the window extension was sized with), at the slot's start time,
+    on the freshly assembled window - and what apply_delay returns is what the step sees"""
+    name = "_update_inputs (apply_delay call)"
+    target = PR + "::make_update_inputs"
+    props = ("C10", "C11", "C01")
+
+    def run(self, ctx):
+        ex = ctx.ex
+        calls = []
+        DELAYED = Rec("InputState", dict(seq=Opaque("delayed.seq"), ts_sent=Opaque("s"), ts_recv=Opaque("r"), data=Opaque("d"), delay_dist=Opaque("dd")), module=BASE, frozen=True)
+
+        def mkdd(tag):
+            return Rec("TrainableDist", dict(alpha=z3.Real(f"{tag}.alpha"), min=z3.Real(f"{tag}.min"), max=z3.Real(f"{tag}.max"), interp="zoh",
+                                             equivalent=lambda ex_, other: True,
+                                             apply_delay=lambda ex_, rate_out, inp, ts_start: (calls.append((rate_out, inp, ts_start)), DELAYED)[1]), module=None, frozen=True)
+        node = Rec("BaseNode", dict(name="n", rate=z3.Real("n.rate"), inputs={}, outputs={}), module=None)
+        prod = Rec("BaseNode", dict(name="prod", rate=z3.Real("prod.rate")), module=None)
+        conn_dd, prev_dd = mkdd("conn"), mkdd("prev")
+        node.f["inputs"]["shadow"] = Rec("Connection", dict(output_node=prod, input_node=node, input_name="shadow", delay_dist=conn_dd), module=None)
+        fn = ctx.call(args=[node])
+        wn = z3.Int("prod.win")
+        ctx.require(wn >= 1)
+        wv = mk_window("t.prod", wn)
+        size = z3.Int("prod.bufsize")
+        ctx.require(size >= 1)
+        prev = {"shadow": mk_input_state("prev.shadow", wn, dd=prev_dd)}
+        t = Rec("SlotVertex", dict(seq=z3.Int("t.seq"), ts_start=z3.Real("t.ts_start"), ts_end=z3.Real("t.ts_end"), windows={"prod": wv}, run=z3.Bool("t.run"), kind="n", generation=0), module=BASE, frozen=True)
+        gs = Rec("GraphState", dict(step=z3.Int("gs.step"), eps=z3.Int("gs.eps"), rng={"n": z3.Const("rng", Leaf)}, seq={"n": z3.Int("old.seq")}, ts={"n": z3.Real("old.ts")},
+                                    params={"n": z3.Const("params", Leaf)}, state={"n": z3.Const("state", Leaf)}, inputs={"n": prev}, timings_eps=None,
+                                    buffer={"prod": [Arr.fresh("buffer.prod", Leaf, size)], "n": [Arr.fresh("buffer.n", Leaf, z3.Int("n.bufsize"))]}, aux={}), module=BASE, frozen=True)
+        ss = ex.call(fn, [gs, t], {})
+        ok = isinstance(ss, Rec) and len(calls) == 1
+        ctx.ensure("apply_delay is called exactly once per input", z3.BoolVal(ok))
+        if not ok:
+            return
+        rate_out, inp, ts0 = calls[0]
+        ctx.ensure("C10/C11 the delay is applied with the PRODUCER's rate (what the window extension was sized with) and the slot's own start time",
+                   z3.And(toz(rate_out) == prod.f["rate"], toz(ts0) == t.f["ts_start"]))
+        ctx.ensure("C10 ... on the freshly assembled (undelayed) window of that producer, carrying the graph state's own (possibly re-parametrised) delay distribution",
+                   z3.And(toz(aw.same(inp.f["seq"], wv.f["seq"])), z3.BoolVal(inp.f["delay_dist"] is prev_dd)))
+        ctx.ensure("C10 ... and the step sees exactly what apply_delay returns", z3.BoolVal(ss.f["inputs"].get("shadow") is DELAYED))
+
+
+UNITS = [RingPush("InputState"), RingPush("Window"), UpdateOutput(), RingBufferLemma(), UpdateInputs(), UpdateInputsDelay()]
 
 
 # =========================================================================================== _run_node / _run_generation (C06, C13, C01)
